@@ -56,17 +56,47 @@ def _all_modules():
     return list(modules.values()) + list(scripts.values())
 
 
+_REAL = {}
+
+
 def _bind_module(m):
-    from . import arrays, values
+    from . import arrays, values, calmodel
+    import datetime as _dt
+    import calendar as _cal
+    import matplotlib as _mpl
+    import matplotlib.dates as _mpld
     if hasattr(m, "np"):
         m.np = arrays.np_proxy
     m.float = values.sym_float
     m.int = values.sym_int
+    d = m.__dict__
+    if d.get("datetime") is _dt:
+        m.datetime = calmodel.datetime_model
+    if d.get("calendar") is _cal:
+        m.calendar = calmodel.calendar_model
+    if d.get("matplotlib") is _mpl:
+        m.matplotlib = calmodel.matplotlib_model()
+    if d.get("mpldates") is _mpld:
+        m.mpldates = calmodel.matplotlib_model().dates
 
 
 def _unbind_module(m):
+    from . import calmodel
+    import datetime as _dt
+    import calendar as _cal
+    import matplotlib as _mpl
+    import matplotlib.dates as _mpld
     if hasattr(m, "np"):
         m.np = numpy
+    d = m.__dict__
+    if d.get("datetime") is calmodel.datetime_model:
+        m.datetime = _dt
+    if d.get("calendar") is calmodel.calendar_model:
+        m.calendar = _cal
+    if isinstance(d.get("matplotlib"), calmodel.MatplotlibProxy):
+        m.matplotlib = _mpl
+    if isinstance(d.get("mpldates"), calmodel._MplDates):
+        m.mpldates = _mpld
     for name in ("float", "int"):
         if name in m.__dict__:
             del m.__dict__[name]
